@@ -492,8 +492,17 @@ fn poll_loop(name: &str, f: &syn::ImplItemFn, cont: &str, done: &str, helpers: &
     };
     let mut awaits = Vec::new();
     let mut body = Vec::new();
-    for s in &lp.body.stmts {
+    for (k, s) in lp.body.stmts.iter().enumerate() {
         match s {
+            // `let req = self.prepare_request()?;` pulled out of the exchange that follows immediately: a name (the
+            // order of evaluation is the one of the nested call)
+            syn::Stmt::Local(l)
+                if matches!(lp.body.stmts.get(k + 1), Some(syn::Stmt::Expr(syn::Expr::Match(_), _)))
+                    && plain_let(l).map(|(_, m, init)| !m && !canon(init).contains("time_fn")).unwrap_or(false) =>
+            {
+                let (nm, _, init) = plain_let(l).unwrap();
+                env.bind(&nm, init);
+            }
             syn::Stmt::Local(l) => match plain_let(l) {
                 Some((nm, false, init)) => {
                     let e = canon(&env.resolve(unawait(&env, init, &mut awaits)));
@@ -533,8 +542,9 @@ fn poll_loop(name: &str, f: &syn::ImplItemFn, cont: &str, done: &str, helpers: &
                 syn::Expr::Match(m) => {
                     // self.process_response(C(self.prepare_request()?)[.await], x)
                     let shape = "`match self.process_response(<client>.call(self.prepare_request()?)[.await], <interval>) { <Cont>(y) => <interval> = y, <Done>(r) => break r }`";
-                    let pc = match strip(&m.expr) {
-                        syn::Expr::MethodCall(pc) if pc.args.len() == 2 => pc,
+                    let scrutinee = env.resolve(&m.expr);
+                    let pc = match strip(&scrutinee) {
+                        syn::Expr::MethodCall(pc) if pc.args.len() == 2 => pc.clone(),
                         _ => return fail(FILE, item, shape),
                     };
                     let mut calls = Vec::new();
